@@ -1009,7 +1009,43 @@ def impl_execute(db, qj: dict, mode: str):
                 outs.append(mat(p))
             except Exception as e:  # noqa: BLE001
                 outs.append({'err': exc_kind(e)})
+    elif mode in ('interleave', 'nested') and qj['kind'] in ('query', 'frequent'):
+        # two results of the same Database in flight at once: rows pulled alternately ('interleave'), or another query
+        # run to completion after the first row of this one ('nested', e.g. a count inside a loop over the results)
+        def row(r):
+            return (r.airport1, r.airport2, r.number_of_flights) if qj['kind'] == 'frequent' else result_to_dict(r)
+
+        try:
+            if mode == 'interleave':
+                its = [iter(db(q)), iter(db(q))]
+                rows = [[], []]
+                live = [True, True]
+                while any(live):
+                    for k in (0, 1):
+                        if live[k]:
+                            try:
+                                rows[k].append(row(next(its[k])))
+                            except StopIteration:
+                                live[k] = False
+                outs = [{'ok': rows[0]}, {'ok': rows[1]}]
+            else:
+                from AEIC.missions.query import CountQuery
+
+                it = iter(db(q))
+                got = []
+                first = True
+                for r in it:
+                    got.append(row(r))
+                    if first:
+                        first = False
+                        _ = db(CountQuery())
+                        _ = list(db(make_query({'kind': 'query', 'limit': 3})))
+                outs = [{'ok': got}]
+        except Exception as e:  # noqa: BLE001
+            outs = [{'err': exc_kind(e)}]
     else:
+        if mode in ('interleave', 'nested'):
+            mode = 'twice'
         for _ in range({'once': 1, 'twice': 2, 'x4': 4}[mode]):
             try:
                 outs.append(mat(db(q)))
@@ -1275,7 +1311,7 @@ def gen_sem_cases(rng, info: DBInfo, n: int):
     cases = []
     for _ in range(n):
         q = gen_query(rng, pools)
-        mode = str(rng.choice(['once', 'once', 'twice', 'live2']))
+        mode = str(rng.choice(['once', 'once', 'twice', 'live2', 'interleave', 'nested']))
         cases.append({'type': 'sem', 'q': q, 'mode': mode})
     # structured: empty filter, everything, paging, repeated sampling
     cases.append({'type': 'sem', 'q': {'kind': 'query', 'filter': {}}, 'mode': 'once'})
